@@ -32,7 +32,8 @@ import (
 type seqPersistence struct {
 	inner persistence.Persistence
 	mu    *sync.Mutex
-	saved map[string]int64 // fan id -> sequence number of SaveFanPwmData
+	saved    map[string]int64 // fan id -> sequence number of SaveFanPwmData
+	savedMap map[string]int64 // fan id -> sequence number of the last SaveFanPwmMap
 }
 
 func (p *seqPersistence) Init() error { return p.inner.Init() }
@@ -52,14 +53,23 @@ func (p *seqPersistence) SaveFanPwmData(fan fans.Fan) error {
 }
 func (p *seqPersistence) DeleteFanPwmData(fan fans.Fan) error          { return p.inner.DeleteFanPwmData(fan) }
 func (p *seqPersistence) LoadFanPwmMap(id string) (map[int]int, error) { return p.inner.LoadFanPwmMap(id) }
-func (p *seqPersistence) SaveFanPwmMap(id string, m map[int]int) error { return p.inner.SaveFanPwmMap(id, m) }
+func (p *seqPersistence) SaveFanPwmMap(id string, m map[int]int) error {
+	driver.Mu.Lock()
+	seq := driver.Seq
+	driver.Mu.Unlock()
+	p.mu.Lock()
+	p.savedMap[id] = seq // the last one counts
+	p.mu.Unlock()
+	return p.inner.SaveFanPwmMap(id, m)
+}
 func (p *seqPersistence) DeleteFanPwmMap(id string) error              { return p.inner.DeleteFanPwmMap(id) }
 
 type c16Case struct {
 	Parallel bool  `json:"parallel"`
 	ViaRun   bool  `json:"viaRun"`
-	Levels   []int `json:"levels"`   // per fan: quantiser levels (analysis length)
-	DelaysMs []int `json:"delaysMs"` // per fan: start delay
+	Levels   []int    `json:"levels"`   // per fan: quantiser levels (analysis length)
+	DelaysMs []int    `json:"delaysMs"` // per fan: start delay
+	Kinds    []string `json:"kinds"`    // per fan: hwmon | file (file fans are analysed = swept by computePwmMap on their first start)
 }
 
 type c16Interval struct {
@@ -67,6 +77,13 @@ type c16Interval struct {
 	First, End int64 `json:"-"`
 	FirstS     int64 `json:"firstWriteSeq"`
 	EndS       int64 `json:"storedSeq"`
+}
+
+func (c *c16Case) kind(i int) string {
+	if i < len(c.Kinds) {
+		return c.Kinds[i]
+	}
+	return "hwmon"
 }
 
 func runC16(ctx *Ctx, c *c16Case) (intervals []c16Interval, ok bool) {
@@ -96,7 +113,7 @@ func runC16(ctx *Ctx, c *c16Case) (intervals []c16Interval, ok bool) {
 	var ctrls []controller.FanController
 	var ids []string
 	var mu sync.Mutex
-	sp := &seqPersistence{inner: newMemPersistence(), mu: &mu, saved: map[string]int64{}}
+	sp := &seqPersistence{inner: newMemPersistence(), mu: &mu, saved: map[string]int64{}, savedMap: map[string]int64{}}
 	var paths []string
 	for i := 0; i < n; i++ {
 		fdir := filepath.Join(dir, fmt.Sprintf("hwmon%d", i))
@@ -114,8 +131,12 @@ func runC16(ctx *Ctx, c *c16Case) (intervals []c16Interval, ok bool) {
 		pathFan[pwm], pathFan[en] = i, i
 		id := uniqueId("c16fan")
 		ids = append(ids, id)
-		fan, _ := fans.NewFan(configuration.FanConfig{ID: id, Curve: curve.Id, HwMon: &configuration.HwMonFanConfig{Platform: "c16", Index: 1, RpmChannel: 1, PwmChannel: 1,
-			SysfsPath: fdir, RpmInputPath: rpm, PwmPath: pwm, PwmEnablePath: en}})
+		fcfg := configuration.FanConfig{ID: id, Curve: curve.Id, HwMon: &configuration.HwMonFanConfig{Platform: "c16", Index: 1, RpmChannel: 1, PwmChannel: 1,
+			SysfsPath: fdir, RpmInputPath: rpm, PwmPath: pwm, PwmEnablePath: en}}
+		if c.kind(i) == "file" {
+			fcfg = configuration.FanConfig{ID: id, Curve: curve.Id, File: &configuration.FileFanConfig{Path: pwm, RpmPath: rpm}}
+		}
+		fan, _ := fans.NewFan(fcfg)
 		ctrls = append(ctrls, controller.NewFanController(sp, fan, control_loop.NewDirectControlLoop(nil), 5*time.Millisecond))
 	}
 	d.Mu.Lock()
@@ -139,7 +160,7 @@ func runC16(ctx *Ctx, c *c16Case) (intervals []c16Interval, ok bool) {
 		go func(i int) {
 			defer wg.Done()
 			time.Sleep(time.Duration(c.DelaysMs[i]) * time.Millisecond)
-			if c.ViaRun {
+			if c.ViaRun || c.kind(i) == "file" {
 				_ = ctrls[i].Run(cctx)
 			} else {
 				_ = ctrls[i].RunInitializationSequence()
@@ -150,9 +171,18 @@ func runC16(ctx *Ctx, c *c16Case) (intervals []c16Interval, ok bool) {
 	deadline := time.Now().Add(90 * time.Second)
 	for time.Now().Before(deadline) {
 		mu.Lock()
-		done := len(sp.saved) == n
+		finished := 0
+		for i := 0; i < n; i++ {
+			if _, ok := sp.saved[ids[i]]; ok && c.kind(i) == "hwmon" {
+				finished++
+			}
+			if _, ok := sp.savedMap[ids[i]]; ok && c.kind(i) == "file" {
+				finished++
+			}
+		}
 		mu.Unlock()
-		if done {
+		if finished == n {
+			// (a file fan stores its default RPM data first and its measured PWM map after the sweep)
 			break
 		}
 		time.Sleep(5 * time.Millisecond)
@@ -177,12 +207,16 @@ func runC16(ctx *Ctx, c *c16Case) (intervals []c16Interval, ok bool) {
 	d.Mu.Unlock()
 	mu.Lock()
 	defer mu.Unlock()
-	if len(sp.saved) != n {
-		ctx.Inconclusive(fmt.Sprintf("only %d of %d analyses finished: %s", len(sp.saved), n, jsonStr(c)))
-		return nil, false
-	}
 	for i := 0; i < n; i++ {
-		intervals = append(intervals, c16Interval{Fan: i, FirstS: first[i], EndS: sp.saved[ids[i]]})
+		end := sp.saved[ids[i]]
+		if sp.savedMap[ids[i]] > end {
+			end = sp.savedMap[ids[i]]
+		}
+		if end == 0 || first[i] == 0 {
+			ctx.Inconclusive(fmt.Sprintf("analysis of fan %d did not finish: %s", i, jsonStr(c)))
+			return nil, false
+		}
+		intervals = append(intervals, c16Interval{Fan: i, FirstS: first[i], EndS: end})
 	}
 	return intervals, true
 }
@@ -210,6 +244,7 @@ func genC16(r *rand.Rand) *c16Case {
 	for i := 0; i < n; i++ {
 		c.Levels = append(c.Levels, pick(r, 3, 4, 6, 9))
 		c.DelaysMs = append(c.DelaysMs, pick(r, 0, 0, 5, 20, 60, r.Intn(150)))
+		c.Kinds = append(c.Kinds, pick(r, "hwmon", "hwmon", "file"))
 	}
 	return c
 }
@@ -228,7 +263,7 @@ func init() {
 			}
 			ctx.Eval(1)
 			cnt, desc := c16Overlaps(iv)
-			class := fmt.Sprintf("fans=%d:viaRun=%v", len(c.Levels), c.ViaRun)
+			class := fmt.Sprintf("fans=%d:viaRun=%v:fileFans=%d", len(c.Levels), c.ViaRun, strings.Count(strings.Join(c.Kinds, ","), "file"))
 			ctx.SampleKind(class, map[string]interface{}{"kind": class, "case": c, "intervals_in_event_sequence_numbers": iv})
 			if cnt > 0 {
 				ctx.Violation("analyses-overlap-although-parallel-initialisation-is-off:"+class, fmt.Sprintf("%s; case %s", desc, jsonStr(c)), c)
